@@ -21,10 +21,13 @@
 (*   EmptyCompactionDropsAll  compaction of an index without live          *)
 (*                  documents publishes no segment (generations restart)   *)
 (*   GenFromTag     a new segment's generation is the handle's tag + 1     *)
+(*   CacheLostOnFailedCommit  a commit that fails (storage fault while the  *)
+(*                  segment is written) leaves the handle's cache emptied  *)
+(*                  but its tag unchanged (cache moved out, not cloned)    *)
 (***************************************************************************)
 EXTENDS IndexOps, TLC, Json
 
-CONSTANTS IdSet, HandleSet, MaxCalls, EmptyCompactionDropsAll, GenFromTag
+CONSTANTS IdSet, HandleSet, MaxCalls, EmptyCompactionDropsAll, GenFromTag, CacheLostOnFailedCommit
 
 VARIABLES segs, hstate, wal, abs, nver, nsid, ncalls,
           hist      \* the calls made so far (ghost, hidden by VIEW): a counterexample of a mutated
@@ -127,6 +130,14 @@ Commit(h) ==
              /\ nsid' = IF ids = <<>> THEN nsid ELSE nsid + 1
   /\ UNCHANGED nver
 
+(* A commit that fails with a storage fault: nothing is published, the queue stays (C03).  As   *)
+(* built the handle's cache and tag are untouched (commit works on a clone); the call is not     *)
+(* recorded in hist (the history driver injects no faults; C03's driver does).                    *)
+CommitFails(h) ==
+  /\ Tick /\ hstate[h].alive /\ hstate[h].pending # <<>>
+  /\ hstate' = IF CacheLostOnFailedCommit THEN [hstate EXCEPT ![h].cache = EmptyContents] ELSE hstate
+  /\ UNCHANGED <<segs, wal, abs, nver, nsid, hist>>
+
 Rollback(h) ==
   /\ Tick /\ hstate[h].alive
   /\ Call([op |-> "rollback", h |-> h])
@@ -152,7 +163,7 @@ Compact ==
   /\ UNCHANGED <<hstate, wal, abs, nver>>
 
 Next ==
-  \/ \E h \in HandleSet : NewWriter(h) \/ DropWriter(h) \/ Commit(h) \/ Rollback(h)
+  \/ \E h \in HandleSet : NewWriter(h) \/ DropWriter(h) \/ Commit(h) \/ CommitFails(h) \/ Rollback(h)
   \/ \E h \in HandleSet, id \in IdSet : Add(h, id) \/ Delete(h, <<id>>)
   \/ \E h \in HandleSet : Delete(h, SortedIds(IdSet))
   \/ Compact
